@@ -34,7 +34,11 @@ RULE = (
     "unset, explicit equal / equal-after-layout / different / all-false / wrong shape) x fan-out 1-3 in every consumer "
     "order x adapter chains of length 0-2 from Scale, AvgOverTime, SumOverTime(per_time or not), RegridNearest(in/out "
     "grid, out mask given or not), run through bare Output/Adapter/Input objects (incl. an exchange before push_info) "
-    "and through Composition.connect() with harness components in every listing position of the producer; "
+    "and through Composition.connect() with harness components in every listing position of the producer; plus "
+    "two-link compositions of real components with a ConnectHelper (producer declaring its info or passing a fresh "
+    "Info via push_infos in every _connect call; a relay component whose in/out info is composed by a complete "
+    "FromInput/FromOutput transfer rule followed by FromValue overrides; direct and late consumers with agreeing / "
+    "conflicting requirements; all listing orders), every link checked on Input.info vs the source end's info; "
     "non-trivial = both sides have at least one unset field, or the outcome is a refusal; distinct by canonical case hash"
 )
 TRUSTED = [
@@ -79,6 +83,8 @@ def _grid_ctor(name):
         return UG((4, 3), data_location=fm.Location.POINTS)
     if name == "U53":
         return UG((5, 3))
+    if name == "U43s":
+        return UG((4, 3), origin=(10.0, 10.0))
     if name == "U4":
         return UG((4,))
     if name == "U4f":
@@ -122,6 +128,7 @@ GSPEC = {
     "R43": _g(1, 10, 0, 2, False, [True, True], [3, 2]),
     "U43p": _g(1, 10, 1, 2, False, [True, True], [4, 3]),
     "U53": _g(1, 11, 0, 2, False, [True, True], [4, 2]),
+    "U43s": _g(1, 13, 0, 2, False, [True, True], [3, 2]),
     "U4": _g(1, 12, 0, 1, False, [True], [3]),
     "U4f": _g(1, 12, 0, 1, False, [False], [3]),
     "X": _g(2, 20, 0, 2, False, [], [2]),
@@ -132,7 +139,7 @@ GSPEC = {
 }
 # pairs that describe the same mesh and differ ONLY in the data location (T43: even the data shape is equal)
 LOCATION_PAIRS = [("T43c", "T43p"), ("T43p", "T43c"), ("X", "Xp"), ("Xp", "X"), ("U43", "U43p"), ("U43p", "U43")]
-REAL_GRIDS = ["U43", "U43f", "U43r", "U43rf", "R43", "U43p", "U53", "U4", "U4f", "X", "X2", "Xp", "T43c", "T43p"]  # have .crs
+REAL_GRIDS = ["U43", "U43f", "U43r", "U43rf", "R43", "U43p", "U53", "U4", "U4f", "X", "X2", "Xp", "T43c", "T43p", "U43s"]  # have .crs
 SAME_GEOM = {
     "U43": ["U43", "U43f", "U43r", "U43rf", "R43"], "U43f": ["U43", "U43f", "U43r", "U43rf", "R43"],
     "U43r": ["U43", "U43f", "U43r", "U43rf", "R43"], "U43rf": ["U43", "U43f", "U43r", "U43rf", "R43"],
@@ -213,6 +220,8 @@ def canon_mask(m):
 def canon_units(u):
     if u is None:
         return None
+    if isinstance(u, str):
+        u = fm.UNITS.Unit(u)
     d = dict(u.dimensionality)
     le, ti = d.pop("[length]", 0), d.pop("[time]", 0)
     q = fm.UNITS.Quantity(1.0, u).to_base_units()
@@ -454,6 +463,170 @@ def run_comp(case):
     return obs
 
 
+class _Slotted(fm.TimeComponent):
+    """harness component: pushes zero data for its output "Out" (if any) as soon as that output's info is exchanged"""
+
+    def __init__(self):
+        super().__init__()
+        self.time = T(0)
+
+    def _next_time(self):
+        return self.time + timedelta(days=1)  # pragma: no cover
+
+    def _push_data(self):
+        push = {}
+        if "Out" in self.outputs:
+            try:
+                push["Out"] = _zeros_for(self.outputs["Out"].info)
+            except fm.errors.FinamNoDataError:
+                pass
+        return push
+
+    def _connect(self, start_time):
+        self.try_connect(start_time, push_data=self._push_data())
+
+    def _validate(self):
+        pass
+
+    def _update(self):
+        pass
+
+    def _finalize(self):
+        pass
+
+
+class _Prod(_Slotted):
+    """producer; with push_every it hands a freshly built Info to try_connect(push_infos=...) in EVERY _connect
+    call (as finam's CsvReader does) instead of declaring it on the output"""
+
+    def __init__(self, spec, push_every):
+        super().__init__()
+        self._spec, self._every = spec, push_every
+
+    def _initialize(self):
+        if self._every:
+            self.outputs.add(name="Out")
+        else:
+            self.outputs.add(name="Out", info=mk_info(self._spec))
+        self.create_connector()
+
+    def _connect(self, start_time):
+        if self._every:
+            self.try_connect(start_time, push_infos={"Out": mk_info(self._spec)}, push_data=self._push_data())
+        else:
+            self.try_connect(start_time, push_data=self._push_data())
+
+
+class _Cons(_Slotted):
+    def __init__(self, spec):
+        super().__init__()
+        self._spec = spec
+
+    def _initialize(self):
+        self.inputs.add(name="In", info=mk_info(self._spec))
+        self.create_connector()
+
+
+class _Relay(_Slotted):
+    """component between two links; one slot's info is composed by info transfer rules from the other slot's
+    exchanged info: a complete transfer followed by FromValue overrides"""
+
+    def __init__(self, fwd, spec, ovu, ovm):
+        super().__init__()
+        self._fwd, self._spec, self._ovu, self._ovm = fwd, spec, ovu, ovm
+
+    def _initialize(self):
+        from finam.tools import FromInput, FromOutput, FromValue
+
+        rules = [FromInput("In") if self._fwd else FromOutput("Out")]
+        if self._ovu is not None:
+            rules.append(FromValue("units", fm.UNITS.Unit(self._ovu)))
+        rules += [FromValue(k, v) for k, v in sorted(self._ovm.items())]
+        if self._fwd:
+            self.inputs.add(name="In", info=mk_info(self._spec))
+            self.outputs.add(name="Out")
+            self.create_connector(out_info_rules={"Out": rules})
+        else:
+            self.inputs.add(name="In")
+            self.outputs.add(name="Out", info=mk_info(self._spec))
+            self.create_connector(in_info_rules={"In": rules})
+
+
+def _log_exchanges(inp, key, log):
+    real = inp.exchange_info
+
+    def exchange_info(info=None):
+        try:
+            r = real(info)
+        except fm.errors.FinamNoDataError:
+            raise
+        except Exception:
+            log.append(key)
+            raise
+        log.append(key)
+        return r
+
+    inp.exchange_info = exchange_info
+
+
+def _link(out, chain, inp):
+    cur, last = out, None
+    for a in chain:
+        last = mk_adapter(a)
+        cur = cur >> last
+    cur >> inp
+    return last
+
+
+def run_relay(case):
+    """P.Out -> side consumers and -> Relay.In ; Relay.Out -> far consumers; real components, Composition.connect()"""
+    r = case["relay"]
+    fwd = case["dir"] == "fwd"
+    prod = _Prod(case["out"], case["push_every"])
+    relay = _Relay(fwd, r["info"], r["ovu"], r["ovm"])
+    side = [_Cons(c["info"]) for c in case["side"]]
+    far = [_Cons(c["info"]) for c in case["far"]]
+    comps = {"P": prod, "R": relay}
+    comps.update({f"S{i}": c for i, c in enumerate(side)})
+    comps.update({f"F{i}": c for i, c in enumerate(far)})
+    comp = fm.Composition([comps[n] for n in case["order"]], print_log=False)
+    pout, rout = prod.outputs["Out"], relay.outputs["Out"]
+    _count_get_info(pout)
+    log1, log2 = [], []
+    links1, links2 = {}, {}
+    for i, c in enumerate(case["side"]):
+        inp = side[i].inputs["In"]
+        links1[i] = (inp, _link(pout, c["chain"], inp))
+        _log_exchanges(inp, i, log1)
+    rin = relay.inputs["In"]
+    links1["R"] = (rin, _link(pout, r["chain"], rin))
+    _log_exchanges(rin, "R", log1)
+    for i, c in enumerate(case["far"]):
+        inp = far[i].inputs["In"]
+        links2[i] = (inp, _link(rout, c["chain"], inp))
+        _log_exchanges(inp, i, log2)
+    outcome = "ok"
+    try:
+        comp.connect(T(0))
+    except Exception as e:  # noqa
+        outcome = err_class(e)
+    obs = {"outcome": outcome, "order1": list(log1), "order2": list(log2), "exchanged": 0, "gate": False}
+    if outcome == "ok":
+        obs["exchanged"] = pout._c07_count[0]
+        try:
+            _ = pout.info
+            obs["gate"] = True
+        except fm.errors.FinamNoDataError:
+            pass
+        obs["inputs1"] = [canon_info(links1[k][0].info) for k in log1]
+        obs["delivered1"] = [canon_info(links1[k][1].info if links1[k][1] is not None else pout.info) for k in log1]
+        obs["inputs2"] = [canon_info(links2[k][0].info) for k in log2]
+        obs["delivered2"] = [canon_info(links2[k][1].info if links2[k][1] is not None else rout.info) for k in log2]
+        obs["out"] = canon_info(pout.info)
+        obs["rout"] = canon_info(rout.info)
+    return obs
+
+
 def run_accepts(case):
     """direct call of the public Info.accepts in the given direction"""
     try:
@@ -466,6 +639,8 @@ def run_accepts(case):
 def run_impl(case):
     if case["mode"] == "accepts":
         return run_accepts(case)
+    if case["mode"] == "relay":
+        return run_relay(case)
     return run_comp(case) if case["mode"] == "comp" else run_bare(case)
 
 
@@ -561,6 +736,8 @@ def _exchange_order(case, obs):
 def coq_case(case, obs):
     if case["mode"] == "accepts":
         return C("CAccepts", coq_info_spec(case["self"]), coq_info_spec(case["inc"]), B(case["down"]))
+    if case["mode"] == "relay":
+        return _coq_relay_case(case, obs)
     cons = []
     for i in _exchange_order(case, obs):
         c = case["consumers"][i]
@@ -570,11 +747,40 @@ def coq_case(case, obs):
     return C("CExchange", oi, B(case["static"]), L(cons))
 
 
+def _coq_consumer(c, info_term=None):
+    chain = L(coq_adapter(a) for a in reversed(c["chain"]))
+    return C("mkC", chain, info_term or coq_info_spec(c["info"]))
+
+
+def _coq_relay_case(case, obs):
+    r = case["relay"]
+    o1 = list(obs.get("order1", []))
+    if "R" in o1:
+        k = o1.index("R")
+        before, after = o1[:k], o1[k + 1:]
+        after += [i for i in range(len(case["side"])) if i not in before and i not in after]
+    else:
+        before = o1 + [i for i in range(len(case["side"])) if i not in o1]
+        after = []
+    o2 = list(obs.get("order2", []))
+    o2 += [i for i in range(len(case["far"])) if i not in o2]
+    ovm = L(P(Z(MKEYS.get(k, 77)), Some(Z(v))) for k, v in sorted(r["ovm"].items()))
+    return C("CRelay", B(case["dir"] == "fwd"), coq_info_spec(case["out"]),
+             L(_coq_consumer(case["side"][i]) for i in before), L(_coq_consumer(case["side"][i]) for i in after),
+             L(coq_adapter(a) for a in reversed(r["chain"])), coq_info_spec(r["info"]),
+             coq_unit_opt_name(r["ovu"]), ovm, L(_coq_consumer(case["far"][i]) for i in o2))
+
+
 OUTCOME = {"ok": 0, "MetaDataError": 1, "NoDataError": 2, "True": 10, "False": 11}
 
 
 def coq_obs(case, obs):
     oc = OUTCOME.get(obs["outcome"], 3)
+    if case["mode"] == "relay":
+        if oc != 0:
+            return C("mkObs", Z(oc), L([]), NONE, N(0), B(False))
+        ins = L(coq_info_canon(x) for x in obs["inputs1"] + obs["inputs2"] + [obs["rout"]])
+        return C("mkObs", Z(0), ins, Some(coq_info_canon(obs["out"])), N(obs["exchanged"]), B(obs["gate"]))
     if case.get("early") and obs.get("early") != "NoDataError":
         oc = 9  # an exchange before push_info must raise FinamNoDataError and leave no trace
     ins = L(coq_info_canon(x) for x in obs.get("inputs", []))
@@ -633,7 +839,102 @@ def _plain(chain):
     return all(a[0] in ("scale", "avg") or (a[0] == "sum" and not a[1]) for a in chain)
 
 
+def _link_failure(who, decl, got, dl, static):
+    """C07 on one link: [decl] what the consumer declared (None: the request was composed by info rules),
+    [got] the input's info after connect, [dl] the info held by the source end of the link"""
+    # no unset field
+    if got["grid"] is None or got["units"] is None or got["mask"] is None:
+        return f"{who}: input info has an unset field after connect: {got}"
+    if got["time"] is None and not static:
+        return f"{who}: input time unset on a non-static link"
+    if any(v is None for v in got["meta"].values()):
+        return f"{who}: unset meta entry after connect: {got['meta']}"
+    # same data locations / convertible units / mask requirement
+    if not _compatible(got["grid"], dl["grid"]):
+        return f"{who}: input grid {got['grid']} does not describe the delivered grid {dl['grid']}"
+    if dl["units"] is None or got["units"][0] != dl["units"][0]:
+        return f"{who}: input units {got['units']} not convertible from delivered {dl['units']}"
+    if got["mask"] != dl["mask"]:
+        return f"{who}: input mask {got['mask']} differs from the delivered mask {dl['mask']}"
+    if decl is None:
+        return None
+    dgrid = None if decl["grid"] is None else GSPEC[decl["grid"]]
+    if decl["mask"] is not None and not mask_accept_spec(decl["mask"], dgrid, dl["mask"], dl["grid"]):
+        return f"{who}: mask requirement {decl['mask']} not satisfied by delivered mask {dl['mask']}"
+    # declared values are kept, unset ones carry the delivered values
+    for f in ("time", "grid", "units"):
+        if f == "time" and static:
+            continue  # static links: time is exempt
+        want = decl[f]
+        if f == "grid" and want is not None:
+            want = GSPEC[want]
+        if f == "units" and want is not None:
+            want = [UTABLE[want][0], [UTABLE[want][1].numerator, UTABLE[want][1].denominator]]
+        if want is None:
+            if got[f] != dl[f]:
+                return f"{who}: {f} unset on the input but {got[f]} != delivered {dl[f]}"
+        elif got[f] != want:
+            return f"{who}: declared {f} {want} changed to {got[f]}"
+    for k, v in decl["meta"].items():
+        if v is not None and got["meta"].get(k) != v:
+            return f"{who}: declared meta {k}={v} became {got['meta'].get(k)}"
+        if v is None and k in dl["meta"] and got["meta"].get(k) != dl["meta"][k]:
+            return f"{who}: unset meta {k} does not carry the delivered value"
+    for k, v in dl["meta"].items():
+        if k not in decl["meta"] and got["meta"].get(k) != v:
+            return f"{who}: delivered meta {k}={v} missing on the input"
+    return None
+
+
+def _declared_kept(who, decl, o):
+    """a slot's declared (set) fields are still what its info says after connect"""
+    if o["grid"] is None or o["units"] is None or o["mask"] is None or o["time"] is None or any(
+            v is None for v in o["meta"].values()):
+        return f"{who}: output info has an unset field after connect: {o}"
+    if decl["grid"] is not None and o["grid"] != GSPEC[decl["grid"]]:
+        return f"{who}: declared grid changed to {o['grid']}"
+    if decl["units"] is not None and (o["units"][0] != UTABLE[decl["units"]][0] or Fraction(*o["units"][1]) != UTABLE[decl["units"]][1]):
+        return f"{who}: declared units {decl['units']} changed to {o['units']}"
+    for k, v in decl["meta"].items():
+        if v is not None and o["meta"].get(k) != v:
+            return f"{who}: declared meta {k}={v} became {o['meta'].get(k)}"
+    return None
+
+
+def _monitor_relay(case, obs):
+    oc = obs["outcome"]
+    if oc != "ok":
+        return None if oc == "MetaDataError" else f"connect() failed with {oc}, not with FinamMetaDataError"
+    if not obs["gate"]:
+        return "connect() succeeded but the producer's output info is not available"
+    fwd = case["dir"] == "fwd"
+    for pos, k in enumerate(obs["order1"]):
+        if k == "R":
+            decl, who = (case["relay"]["info"] if fwd else None), "link P.Out -> Relay.In"
+        else:
+            decl, who = case["side"][k]["info"], f"link P.Out -> S{k}.In"
+        f = _link_failure(who, decl, obs["inputs1"][pos], obs["delivered1"][pos], False)
+        if f:
+            return f
+    for pos, k in enumerate(obs["order2"]):
+        f = _link_failure(f"link Relay.Out -> F{k}.In", case["far"][k]["info"], obs["inputs2"][pos], obs["delivered2"][pos], False)
+        if f:
+            return f
+    if len(obs["order1"]) != len(case["side"]) + 1 or len(obs["order2"]) != len(case["far"]):
+        return "connect() succeeded although not every input exchanged its info"
+    f = _declared_kept("P.Out", case["out"], obs["out"])
+    if f:
+        return f
+    if not fwd:
+        f = _declared_kept("Relay.Out", case["relay"]["info"], obs["rout"])
+        if f:
+            return f
+    return None
+
+
 def monitor(case, obs):
+    if case["mode"] == "relay":
+        return _monitor_relay(case, obs)
     if case["mode"] == "accepts":
         if obs["outcome"] not in ("True", "False"):
             return f"Info.accepts raised {obs['outcome']}"
@@ -652,50 +953,9 @@ def monitor(case, obs):
     static = case["static"]
     out_decl = case["out"]
     for pos, i in enumerate(obs["order"]):
-        c = case["consumers"][i]
-        decl = c["info"]
-        got = obs["inputs"][pos]
-        dl = obs["delivered"][pos]
-        who = f"consumer {i}"
-        # no unset field
-        if got["grid"] is None or got["units"] is None or got["mask"] is None:
-            return f"{who}: input info has an unset field after connect: {got}"
-        if got["time"] is None and not static:
-            return f"{who}: input time unset on a non-static link"
-        if any(v is None for v in got["meta"].values()):
-            return f"{who}: unset meta entry after connect: {got['meta']}"
-        # same data locations / convertible units / mask requirement
-        if not _compatible(got["grid"], dl["grid"]):
-            return f"{who}: input grid {got['grid']} does not describe the delivered grid {dl['grid']}"
-        if dl["units"] is None or got["units"][0] != dl["units"][0]:
-            return f"{who}: input units {got['units']} not convertible from delivered {dl['units']}"
-        dgrid = None if decl["grid"] is None else GSPEC[decl["grid"]]
-        if decl["mask"] is not None and not mask_accept_spec(decl["mask"], dgrid, dl["mask"], dl["grid"]):
-            return f"{who}: mask requirement {decl['mask']} not satisfied by delivered mask {dl['mask']}"
-        # declared values are kept, unset ones carry the delivered values
-        for f in ("time", "grid", "units"):
-            if f == "time" and static:
-                continue  # static links: time is exempt (a later requester may still set the producer's time)
-            want = decl[f]
-            if f == "grid" and want is not None:
-                want = GSPEC[want]
-            if f == "units" and want is not None:
-                want = [UTABLE[want][0], [UTABLE[want][1].numerator, UTABLE[want][1].denominator]]
-            if want is None:
-                if got[f] != dl[f]:
-                    return f"{who}: {f} unset on the input but {got[f]} != delivered {dl[f]}"
-            elif got[f] != want:
-                return f"{who}: declared {f} {want} changed to {got[f]}"
-        if got["mask"] != dl["mask"]:
-            return f"{who}: input mask {got['mask']} differs from the delivered mask {dl['mask']}"
-        for k, v in decl["meta"].items():
-            if v is not None and got["meta"].get(k) != v:
-                return f"{who}: declared meta {k}={v} became {got['meta'].get(k)}"
-            if v is None and k in dl["meta"] and got["meta"].get(k) != dl["meta"][k]:
-                return f"{who}: unset meta {k} does not carry the delivered value"
-        for k, v in dl["meta"].items():
-            if k not in decl["meta"] and got["meta"].get(k) != v:
-                return f"{who}: delivered meta {k}={v} missing on the input"
+        f = _link_failure(f"consumer {i}", case["consumers"][i]["info"], obs["inputs"][pos], obs["delivered"][pos], static)
+        if f:
+            return f
     # producer side: declared values kept, unset ones filled by the first requester that provides them
     o = obs["out"]
     if o["grid"] is None or o["units"] is None or o["mask"] is None or any(v is None for v in o["meta"].values()):
@@ -737,6 +997,8 @@ def monitor(case, obs):
 def nontrivial(case, obs):
     if case["mode"] == "accepts":
         return False
+    if case["mode"] == "relay":
+        return True
     if obs["outcome"] != "ok":
         return case["out"] is not None
     o = case["out"]
@@ -988,6 +1250,15 @@ def _case(out, consumers, mode="bare", static=False, order=None, early=False, pr
             "order": order or list(range(len(consumers))), "early": early, "prod_pos": prod_pos}
 
 
+def _relay_case(out, side, relay, far, direction, order=None, push_every=False):
+    """relay = (info spec, chain, override units or None, override meta)"""
+    names = ["P", "R"] + [f"S{i}" for i in range(len(side))] + [f"F{i}" for i in range(len(far))]
+    return {"mode": "relay", "dir": direction, "out": out, "push_every": push_every,
+            "side": [{"info": c[0], "chain": c[1]} for c in side],
+            "relay": {"info": relay[0], "chain": relay[1], "ovu": relay[2], "ovm": relay[3]},
+            "far": [{"info": c[0], "chain": c[1]} for c in far], "order": order or names}
+
+
 CORPUS = [
     # the four situations of tests/core/test_propagate_info.py
     _case(_I(units="m"), [(_I(units="km"), [])], mode="comp"),
@@ -1020,9 +1291,86 @@ CORPUS = [
     _case(_I(grid="T43c"), [(_I(grid="T43p"), [])]),
     _case(_I(grid="T43p"), [(_I(grid="T43c"), [["scale"]])], mode="comp"),
     _case(_I(grid="T43c"), [(_I(grid="T43c"), []), (_I(grid=None), [["avg"]])], mode="comp", prod_pos=1),
+    # seeded g: open producer grid, push_infos in every _connect, late second consumer with a conflicting grid
+    _relay_case(_I(grid=None), [(_I(grid="U43"), [])], (_I(time=None, grid=None, units=None), [], None, {}),
+                [(_I(grid="U43s"), [])], "bwd", order=["P", "S0", "R", "F0"], push_every=True),
+    # seeded h: complete transfer rule followed by overriding FromValue rules (forward and backward)
+    _relay_case(_I(units="m", k1=5), [], (_I(units=None, k1=None), [], "m/s", {"k1": 9}), [(_I(units=None), [])], "fwd"),
+    _relay_case(_I(units=None), [], (_I(grid=None, units=None), [], "m/s", {}), [(_I(units="m"), [])], "bwd"),
     # producer info never pushed
     _case(None, [(_I(), [])]),
 ]
+
+
+def _gen_relay_case(rng):
+    def simple_mask(sp, p_unset):
+        sp["mask"] = None if rng.random() < p_unset else "FLEX"
+        return sp
+
+    fwd = rng.random() < 0.5
+    pool = ["U43", "U43f", "U43r", "U43s", "U53", "T43c", "T43p", "N0", "N3"]
+    out = simple_mask(_gen_info(rng, pool), 0.0)
+    if rng.random() < 0.4:
+        out["grid"] = None
+    side = []
+    for _ in range(rng.choice([0, 1, 1, 2])):
+        ci = simple_mask(_gen_info(rng, pool, ref=out, conflict=0.08), 0.3)
+        side.append((ci, rng.choice([[], [], [["scale"]], [["avg"]]])))
+    ovu = rng.choice([None, None, "m", "km", "m/s", "s", ""])
+    ovm = rng.choice([{}, {}, {"k1": 9}, {"k2": 4}])
+    rchain = rng.choice([[], [], [["scale"]]])
+    if fwd:
+        rinfo = simple_mask(_gen_info(rng, pool, ref=out, conflict=0.05), 0.3)
+        # what the relay's output will (roughly) state, to generate mostly agreeing far consumers
+        guess = {"time": rinfo["time"] if rinfo["time"] is not None else out["time"],
+                 "grid": rinfo["grid"] or out["grid"], "mask": "FLEX",
+                 "units": ovu if ovu is not None else (rinfo["units"] if rinfo["units"] is not None else out["units"]),
+                 "meta": {}}
+    else:
+        rinfo = simple_mask(_gen_info(rng, pool, ref=out, conflict=0.05), 0.0)
+        for f, pr in (("grid", 0.6), ("units", 0.5), ("time", 0.4)):
+            if rng.random() < pr:
+                rinfo[f] = None
+        guess = rinfo
+    far = []
+    for _ in range(rng.choice([1, 1, 2])):
+        ci = simple_mask(_gen_info(rng, pool, ref=guess, conflict=0.08), 0.3)
+        far.append((ci, rng.choice([[], [], [["scale"]]])))
+    case = _relay_case(out, side, (rinfo, rchain, ovu, ovm), far, "fwd" if fwd else "bwd", push_every=rng.random() < 0.5)
+    rng.shuffle(case["order"])
+    return case
+
+
+def _relay_sweep(tier):
+    cases = []
+    k = 0
+    # (g) producer with an open grid, a direct consumer and a consumer behind a relay that exchanges in a later
+    # connect iteration; agreeing and conflicting grid requirements; every listing order
+    for (ga, gb) in (("U43", "U43s"), ("U43", "U43f"), ("T43c", "T43p"), ("U43", "U53"), ("U43", "U43")):
+        for direction in ("bwd", "fwd"):
+            for every in (True, False):
+                for order in itertools.permutations(["P", "S0", "R", "F0"]):
+                    k += 1
+                    if tier == "quick" and k % 2:
+                        continue
+                    rinfo = _I(time=None, grid=None, units=None) if direction == "bwd" else _I(grid=None, units=None)
+                    cases.append(_relay_case(_I(grid=None), [(_I(grid=ga), [])], (rinfo, [], None, {}),
+                                             [(_I(grid=gb), [])], direction, order=list(order), push_every=every))
+    # (h) complete transfer rule followed by FromValue overrides, open / stated units on the other link
+    for direction in ("fwd", "bwd"):
+        for ovu in (None, "m/s", "km"):
+            for ovm in ({}, {"k1": 9}):
+                for pu in (None, "m", "m/s"):
+                    for fu in (None, "m", "km/h"):
+                        for order in itertools.permutations(["P", "R", "F0"]):
+                            k += 1
+                            if tier == "quick" and k % 3:
+                                continue
+                            rinfo = _I(units=None, k1=None) if direction == "fwd" else _I(grid=None, units=None)
+                            cases.append(_relay_case(_I(units=pu, k1=5), [], (rinfo, [], ovu, ovm),
+                                                     [(_I(units=fu), [])], direction, order=list(order),
+                                                     push_every=(k % 2 == 0)))
+    return cases
 
 
 MASK_KINDS = ["A", "B", "Z", "nomask", "FLEX", "NONE", None]
@@ -1072,6 +1420,10 @@ def generate(rng, tier):
             cases.append({"mode": "accepts", "self": _I(grid=a), "inc": _I(grid=b), "down": down})
     for i in range(n):
         cases.append(_gen_case(rng, i))
+    # real components with a ConnectHelper: push_infos in every _connect call, info transfer rules
+    cases += _relay_sweep(tier)
+    for i in range(n // 4):
+        cases.append(_gen_relay_case(rng))
     # the public Info.accepts in both directions on random pairs (incl. pairs no exchange can reach)
     for i in range(n // 3):
         a = _gen_info(rng, ALL_GRIDS)
@@ -1083,9 +1435,16 @@ def generate(rng, tier):
 
 def distribution(cases, obss):
     acc = [c for c in cases if c["mode"] == "accepts"]
-    cases, obss = zip(*[(c, o) for c, o in zip(cases, obss) if c["mode"] != "accepts"])
+    rel = [(c, o) for c, o in zip(cases, obss) if c["mode"] == "relay"]
+    cases, obss = zip(*[(c, o) for c, o in zip(cases, obss) if c["mode"] not in ("accepts", "relay")])
     d = {
         "direct_accepts_calls": len(acc),
+        "relay_compositions": {
+            "total": len(rel), "dir": dict(Counter(c["dir"] for c, _ in rel)),
+            "push_infos_every_connect": sum(1 for c, _ in rel if c["push_every"]),
+            "with_override_rules": sum(1 for c, _ in rel if c["relay"]["ovu"] is not None or c["relay"]["ovm"]),
+            "outcome": dict(Counter(o.get("outcome", "harness_error") for _, o in rel)),
+        },
         "mode": dict(Counter(c["mode"] for c in cases)),
         "fanout": dict(Counter(len(c["consumers"]) for c in cases)),
         "outcome": dict(Counter(o.get("outcome", "harness_error") for o in obss)),
@@ -1103,6 +1462,28 @@ def distribution(cases, obss):
 
 def shrink_candidates(case):
     if case["mode"] == "accepts":
+        return
+    if case["mode"] == "relay":
+        for key in ("side", "far"):
+            lst = case[key]
+            for i in range(len(lst)):
+                if key == "far" and len(lst) == 1:
+                    continue
+                name = ("S" if key == "side" else "F")
+                keep = lst[:i] + lst[i + 1:]
+                order = [n for n in case["order"] if n != f"{name}{len(lst) - 1}"]
+                yield {**case, key: keep, "order": order}
+        r = case["relay"]
+        if r["ovm"]:
+            yield {**case, "relay": {**r, "ovm": {}}}
+        if r["chain"]:
+            yield {**case, "relay": {**r, "chain": []}}
+        for key in ("side", "far"):
+            for i, c in enumerate(case[key]):
+                if c["chain"]:
+                    yield {**case, key: case[key][:i] + [{"info": c["info"], "chain": []}] + case[key][i + 1:]}
+        if case["push_every"]:
+            yield {**case, "push_every": False}
         return
     cs = case["consumers"]
     if len(cs) > 1:
